@@ -16,7 +16,8 @@ from .values import (PropV, IterV, SV, Args, BoolTermV, BoundV, BuiltinV, ClassV
 
 EXTERNAL_MODULES = {'asyncio', 'kiwipy', 'copy', 'inspect', 'functools', 'sys', 'os', 'pickle', 'yaml', 'uuid',
                     'time', 'traceback', 'logging', 'warnings', 'importlib', 'fnmatch', 'errno', 'enum', 're',
-                    'collections', 'contextlib', 'abc', 'json', 'types', 'typing', 'tblib', 'nest_asyncio'}
+                    'collections', 'contextlib', 'abc', 'json', 'types', 'typing', 'tblib', 'nest_asyncio', 'concurrent',
+                    'aio_pika'}
 
 BUILTIN_FUNCS = {'len', 'isinstance', 'issubclass', 'callable', 'getattr', 'setattr', 'hasattr', 'str', 'int', 'bool',
                  'list', 'dict', 'tuple', 'set', 'type', 'any', 'all', 'dir', 'range', 'super', 'id', 'iter', 'next',
@@ -148,7 +149,7 @@ class ExprMixin:
         from .source import EXTERNAL_ALIASES
         if target in EXTERNAL_ALIASES:
             return ClassV(self.index.classes[EXTERNAL_ALIASES[target]])
-        if target in EXTERNAL_MODULES or target in ('asyncio.futures', 'os.path', 'collections.abc', 'yaml.loader',
+        if target in EXTERNAL_MODULES or target in ('concurrent.futures', 'asyncio.futures', 'os.path', 'collections.abc', 'yaml.loader',
                                                     'aio_pika.exceptions', 'yaml.representer'):
             return ModuleV(target)
         return BuiltinV(target)
